@@ -100,6 +100,9 @@ func main() {
 		fmt.Print(dumpLayout(c))
 		return
 	}
+	if debugHook != nil && err == nil {
+		debugHook(c)
+	}
 	exit := 0
 	if err != nil {
 		// Cannot analyse: never "held".
@@ -193,3 +196,5 @@ func writeJSON(path string, v interface{}) {
 }
 
 var _ = strings.TrimSpace
+
+var debugHook func(c *Ctx)
